@@ -1,5 +1,5 @@
 import Litep2pVerif.Common.Parse
-import Litep2pVerif.Model.Wire.KadMessage
+import Litep2pVerif.Model.Wire.KadEncoders
 import Litep2pVerif.Model.Wire.MultihashAccept
 /-! Line-protocol driver for the decoder models (C19). -/
 namespace Litep2pVerif.Driver.C19
@@ -16,8 +16,7 @@ def input? (h : String) : Option (List Nat) := if h = "-" then some [] else hexB
 def peerPb (p : KPeer) : String :=
   "{id=" ++ hexd p.id ++ ",addrs=[" ++ joinWith ";" (p.addrs.map hexd) ++ "],conn=" ++ toString p.connection ++ "}"
 
-def kadPb (bs : List Nat) : String :=
-  match KMessage.decode bs with
+def kadDump : Option KMessage → String
   | none => "err"
   | some m =>
     let rec_ := match m.record with
@@ -28,16 +27,14 @@ def kadPb (bs : List Nat) : String :=
       " rec=" ++ rec_ ++ " closer=[" ++ joinWith "," (m.closerPeers.map peerPb) ++ "] prov=[" ++
       joinWith "," (m.providerPeers.map peerPb) ++ "]"
 
-def identifyPb (bs : List Nat) : String :=
-  match Identify.decode bs with
+def identifyDump : Option Identify → String
   | none => "err"
   | some m =>
     "ok pv=" ++ optHex m.protocolVersion ++ " av=" ++ optHex m.agentVersion ++ " pk=" ++ optHex m.publicKey ++
       " la=[" ++ joinWith ";" (m.listenAddrs.map hexd) ++ "] oa=" ++ optHex m.observedAddr ++
       " pr=[" ++ joinWith ";" (m.protocols.map hexd) ++ "]"
 
-def bitswapPb (bs : List Nat) : String :=
-  match BsMessage.decode bs with
+def bitswapDump : Option BsMessage → String
   | none => "err"
   | some m =>
     let wl := match m.wantlist with
@@ -50,8 +47,7 @@ def bitswapPb (bs : List Nat) : String :=
       joinWith "," (m.blockPresences.map fun b => "{c=" ++ hexd b.cid ++ ",t=" ++ toString b.type ++ "}") ++
       "] pb=" ++ toString m.pendingBytes
 
-def noisePb (bs : List Nat) : String :=
-  match NoisePayload.decode bs with
+def noiseDump : Option NoisePayload → String
   | none => "err"
   | some m =>
     let ext := match m.extensions with
@@ -60,10 +56,209 @@ def noisePb (bs : List Nat) : String :=
           joinWith ";" (e.streamMuxers.map hexd) ++ "]}"
     "ok key=" ++ optHex m.identityKey ++ " sig=" ++ optHex m.identitySig ++ " ext=" ++ ext
 
-def keyPb (bs : List Nat) : String :=
-  match PublicKeyPb.decode bs with
+def keyDump : Option PublicKeyPb → String
   | none => "err"
   | some m => "ok type=" ++ toString m.type ++ " data=" ++ hexd m.data
+
+def kadPb (bs : List Nat) : String := kadDump (KMessage.decode bs)
+def identifyPb (bs : List Nat) : String := identifyDump (Identify.decode bs)
+def bitswapPb (bs : List Nat) : String := bitswapDump (BsMessage.decode bs)
+def noisePb (bs : List Nat) : String := noiseDump (NoisePayload.decode bs)
+def keyPb (bs : List Nat) : String := keyDump (PublicKeyPb.decode bs)
+
+/-! ### Structured message specs (`encpb`, `kenc`): `-` empty bytes, `none` absent, `*` empty list,
+`+` between byte strings, `;` between messages, `/` and `,` between the fields of a message. -/
+
+def optBytes? (s : String) : Option (Option (List Nat)) :=
+  if s = "none" then some none else (input? s).map some
+
+def listBytes? (s : String) : Option (List (List Nat)) :=
+  if s = "*" ∨ s = "" then some [] else (s.splitOn "+").mapM input?
+
+def bool01? (s : String) : Option Bool :=
+  if s = "1" then some true else if s = "0" then some false else none
+
+def listOf? {α : Type} (item : String → Option α) (s : String) : Option (List α) :=
+  if s = "*" then some [] else (s.splitOn ";").mapM item
+
+def kpeer? (s : String) : Option KPeer :=
+  match s.splitOn "/" with
+  | [id, addrs, conn] => do
+    let id ← input? id
+    let addrs ← listBytes? addrs
+    let conn ← conn.toInt?
+    pure { id := id, addrs := addrs, connection := conn }
+  | _ => none
+
+def krecord? (s : String) : Option (Option KRecord) :=
+  if s = "none" then some none else
+  match s.splitOn "," with
+  | [k, v, tr, pub, ttl] => do
+    let k ← input? k
+    let v ← input? v
+    let tr ← input? tr
+    let pub ← input? pub
+    let ttl ← ttl.toNat?
+    pure (some { key := k, value := v, timeReceived := tr, publisher := pub, ttl := ttl })
+  | _ => none
+
+def kmessage? : List String → Option KMessage
+  | [ty, clr, key, rec_, closer, prov] => do
+    let ty ← ty.toInt?
+    let clr ← clr.toInt?
+    let key ← input? key
+    let rec_ ← krecord? rec_
+    let closer ← listOf? kpeer? closer
+    let prov ← listOf? kpeer? prov
+    pure { type := ty, clusterLevelRaw := clr, key := key, record := rec_, closerPeers := closer, providerPeers := prov }
+  | _ => none
+
+def identify? : List String → Option Identify
+  | [pv, av, pk, la, oa, pr] => do
+    let pv ← optBytes? pv
+    let av ← optBytes? av
+    let pk ← optBytes? pk
+    let la ← listBytes? la
+    let oa ← optBytes? oa
+    let pr ← listBytes? pr
+    pure { protocolVersion := pv, agentVersion := av, publicKey := pk, listenAddrs := la, observedAddr := oa, protocols := pr }
+  | _ => none
+
+def bsEntry? (s : String) : Option BsEntry :=
+  match s.splitOn "/" with
+  | [b, p, c, w, d] => do
+    let b ← input? b
+    let p ← p.toInt?
+    let c ← bool01? c
+    let w ← w.toInt?
+    let d ← bool01? d
+    pure { block := b, priority := p, cancel := c, wantType := w, sendDontHave := d }
+  | _ => none
+
+def bsWantlist? (s : String) : Option (Option BsWantlist) :=
+  if s = "none" then some none else
+  match s.splitOn ":" with
+  | [full, entries] => do
+    let full ← bool01? full
+    let entries ← listOf? bsEntry? entries
+    pure (some { entries := entries, full := full })
+  | _ => none
+
+def bsBlock? (s : String) : Option BsBlock :=
+  match s.splitOn "/" with
+  | [p, d] => do
+    let p ← input? p
+    let d ← input? d
+    pure { pfx := p, data := d }
+  | _ => none
+
+def bsPresence? (s : String) : Option BsPresence :=
+  match s.splitOn "/" with
+  | [c, t] => do
+    let c ← input? c
+    let t ← t.toInt?
+    pure { cid := c, type := t }
+  | _ => none
+
+def bsMessage? : List String → Option BsMessage
+  | [wl, blocks, payload, pres, pending] => do
+    let wl ← bsWantlist? wl
+    let blocks ← listBytes? blocks
+    let payload ← listOf? bsBlock? payload
+    let pres ← listOf? bsPresence? pres
+    let pending ← pending.toInt?
+    pure { wantlist := wl, blocks := blocks, payload := payload, blockPresences := pres, pendingBytes := pending }
+  | _ => none
+
+def noiseExt? (s : String) : Option (Option NoiseExtensions) :=
+  if s = "none" then some none else
+  match s.splitOn "," with
+  | [ch, sm] => do
+    let ch ← listBytes? ch
+    let sm ← listBytes? sm
+    pure (some { webtransportCerthashes := ch, streamMuxers := sm })
+  | _ => none
+
+def noisePayload? : List String → Option NoisePayload
+  | [k, sg, ext] => do
+    let k ← optBytes? k
+    let sg ← optBytes? sg
+    let ext ← noiseExt? ext
+    pure { identityKey := k, identitySig := sg, extensions := ext }
+  | _ => none
+
+def publicKey? : List String → Option PublicKeyPb
+  | [t, d] => do
+    let t ← t.toInt?
+    let d ← input? d
+    pure { type := t, data := d }
+  | _ => none
+
+/-- `encpb`: the model's `encode` of the value and the model's `decode` of those bytes. -/
+def encPb (schema : String) (args : List String) : String :=
+  let out (bs : List Nat) (dump : String) := "ok " ++ hexd bs ++ " ==> " ++ dump
+  match schema with
+  | "kad" => match kmessage? args with
+    | some m => if m.WF then out (KMessage.encode m) (kadPb (KMessage.encode m)) else "bad-op"
+    | none => "bad-op"
+  | "identify" => match identify? args with
+    | some m => if m.WF then out (Identify.encode m) (identifyPb (Identify.encode m)) else "bad-op"
+    | none => "bad-op"
+  | "bitswap" => match bsMessage? args with
+    | some m => if m.WF then out (BsMessage.encode m) (bitswapPb (BsMessage.encode m)) else "bad-op"
+    | none => "bad-op"
+  | "noise" => match noisePayload? args with
+    | some m => if m.WF then out (NoisePayload.encode m) (noisePb (NoisePayload.encode m)) else "bad-op"
+    | none => "bad-op"
+  | "key" => match publicKey? args with
+    | some m => if m.WF then out (PublicKeyPb.encode m) (keyPb (PublicKeyPb.encode m)) else "bad-op"
+    | none => "bad-op"
+  | _ => "bad-op"
+
+def peerIn? (s : String) : Option PeerIn :=
+  (kpeer? s).map fun p => { id := p.id, addrs := p.addrs, conn := p.connection }
+
+def peersIn? (s : String) : Option (List PeerIn) :=
+  if s = "-" then some [] else listOf? peerIn? s
+
+def recordIn? : List String → Option RecordIn
+  | [k, v, pub, ttl] => do
+    let k ← input? k
+    let v ← input? v
+    let pub ← optBytes? pub
+    let ttl ← ttl.toNat?
+    pure { key := k, value := v, publisher := pub, ttl := ttl }
+  | _ => none
+
+/-- `kenc`: the hand-written Kademlia encoders of message.rs on explicit inputs. -/
+def kadEncoder : List String → Option KMessage
+  | ["findnode", k] => (input? k).map kadFindNode
+  | "putvalue" :: r => (recordIn? r).map kadPutValue
+  | ["getrecord", k] => (input? k).map kadGetRecord
+  | ["findnode_resp", k, ps] => do
+    let k ← input? k
+    let ps ← peersIn? ps
+    pure (kadFindNodeResponse k ps)
+  | ["putvalue_resp", k, v] => do
+    let k ← input? k
+    let v ← input? v
+    pure (kadPutValueResponse k v)
+  | "getvalue_resp" :: k :: ps :: r => do
+    let k ← input? k
+    let ps ← peersIn? ps
+    match r with
+    | [] => pure (kadGetValueResponse k ps none)
+    | r => (recordIn? r).map fun r => kadGetValueResponse k ps (some r)
+  | ["addprovider", k, p] => do
+    let k ← input? k
+    let p ← peerIn? p
+    pure (kadAddProvider k p)
+  | ["getproviders", k] => (input? k).map kadGetProvidersRequest
+  | ["getproviders_resp", prov, closer] => do
+    let prov ← peersIn? prov
+    let closer ← peersIn? closer
+    pure (kadGetProvidersResponse prov closer)
+  | _ => none
 
 /-- Parse `a=1,b=0` into an address-validity table. -/
 def addrTable (s : String) : List (List Nat × Bool) :=
@@ -109,6 +304,11 @@ def step (st : State) (line : String) : State × String :=
         | "noise" => noisePb bs
         | "key" => keyPb bs
         | _ => "bad-op")
+  | "encpb" :: schema :: args => (st, encPb schema args)
+  | "kenc" :: args =>
+    (st, match kadEncoder args with
+      | some m => if m.WF then "ok " ++ hexd (KMessage.encode m) else "bad-op"
+      | none => "bad-op")
   | "kad" :: h :: repl :: rest =>
     match input? h, repl.toNat? with
     | some bs, some repl =>
